@@ -33,6 +33,8 @@ pub enum Action {
     DapDisconnect,
     CloseStdin,
     CloseTcp,
+    /// a debugger attaches (TCP connect + `initialize`) and stays connected
+    DapConnect,
 }
 
 pub const STATES: [State; 5] = [
@@ -52,6 +54,11 @@ pub fn orders(state: State) -> Vec<(&'static str, Vec<Action>)> {
         v.push(("shutdown,exit,disconnect", vec![LspShutdown, LspExit, DapDisconnect]));
         v.push(("close-stdin,close-tcp", vec![CloseStdin, CloseTcp]));
         v.push(("close-tcp,shutdown,exit", vec![CloseTcp, LspShutdown, LspExit]));
+    } else {
+        // a debugger that attaches while the server is on its way out
+        v.push(("shutdown,connect,exit", vec![LspShutdown, DapConnect, LspExit]));
+        v.push(("shutdown,exit,connect", vec![LspShutdown, LspExit, DapConnect]));
+        v.push(("close-stdin,connect", vec![CloseStdin, DapConnect]));
     }
     v
 }
@@ -259,6 +266,25 @@ pub fn run_history(bin: &str, dir: &Path, port: u16, state: State, actions: &[Ac
                     let _ = t.shutdown(std::net::Shutdown::Both);
                 }
             }
+            Action::DapConnect => {
+                // (a refused connection - the process may be gone already - is simply no session)
+                for _ in 0..10 {
+                    match TcpStream::connect(("127.0.0.1", port)) {
+                        Ok(s) => {
+                            let _ = s.set_nodelay(true);
+                            tcp = Some(s);
+                            break;
+                        }
+                        Err(_) => {
+                            if matches!(child.try_wait(), Ok(Some(_))) {
+                                break;
+                            }
+                            std::thread::sleep(Duration::from_millis(10))
+                        }
+                    }
+                }
+                let _ = send_dap(&mut tcp, "initialize", json!({"adapterID": "mos", "linesStartAt1": true, "columnsStartAt1": true}));
+            }
         }
     }
     // ---- observe
@@ -349,13 +375,38 @@ pub fn run(ctx: &Ctx, replay: Option<&Value>) -> i32 {
         return 0;
     }
     // ---- layer 2: the model's outcome sets
-    let model = match super::c20_model::outcome_sets(ctx) {
+    let model = match super::c20_model::outcome_sets(ctx, true) {
         Ok(m) => m,
         Err(e) => {
             eprintln!("MACHINERY: spin model: {}", e);
             return 2;
         }
     };
+    // self-test of the model: the protocol as it was before repair 8dc9ff0 must reach HANG in exactly
+    // the three late-attach histories (a model that cannot see that hang decides nothing)
+    match super::c20_model::outcome_sets(ctx, false) {
+        Ok(m) => {
+            let mut hangs: Vec<String> = m.iter().filter(|(_, v)| v.contains("HANG")).map(|((s, o), _)| format!("{}/{}", s, o)).collect();
+            hangs.sort();
+            let expect = vec!["NoDebugger/close-stdin,connect", "NoDebugger/shutdown,connect,exit", "NoDebugger/shutdown,exit,connect"];
+            ctx.set("model_selftest_unrepaired_protocol_hangs", json!(hangs));
+            if hangs != expect {
+                eprintln!("MACHINERY: model self-test: unrepaired protocol hangs in {:?}, expected {:?}", hangs, expect);
+                return 2;
+            }
+        }
+        Err(e) => {
+            eprintln!("MACHINERY: spin model (self-test): {}", e);
+            return 2;
+        }
+    }
+    // a hang the model can reach is a violation candidate: it counts when the real process shows it
+    for ((s, o), v) in model.iter() {
+        if v.iter().any(|x| x != "exit-0") {
+            ctx.note(format!("the model reaches {:?} for {}/{}", v, s, o));
+            ctx.count("model_reaches_non_clean_outcome");
+        }
+    }
     // ---- layer 1
     let mut work = vec![];
     for st in STATES.iter() {
@@ -447,7 +498,7 @@ pub fn run(ctx: &Ctx, replay: Option<&Value>) -> i32 {
     }
     let code = ctx.finish(
         "model_checking",
-        "all client-visible shutdown histories: 5 session states (no debugger, attached idle, test running, paused, finished) x 7 orders of LSP shutdown/exit, DAP disconnect, closing stdin, closing the TCP connection x inter-message gap patterns, each run twice on the real `mos lsp` process (stdio + TCP); observed: exit status, exit within a 5 s horizon, debug port free afterwards, panics on stderr. A Promela model of the shutdown protocol is explored exhaustively with spin and every observed outcome must lie in the model's outcome set for that history",
+        "all client-visible shutdown histories: 5 session states (no debugger, attached idle, test running, paused, finished) x 10 orders of LSP shutdown/exit, DAP disconnect, a debugger attaching late, closing stdin, closing the TCP connection x inter-message gap patterns, each run twice on the real `mos lsp` process (stdio + TCP); observed: exit status, exit within a 5 s horizon, debug port free afterwards, panics on stderr. A Promela model of the shutdown protocol is explored exhaustively with spin and every observed outcome must lie in the model's outcome set for that history",
         true,
         &[
             "timing is a finite menu of gaps (20 ms quick; 0/20/200 ms thorough); interleavings inside the real process are not controlled",
